@@ -55,8 +55,9 @@ extern unsigned char ext_lowbyte (long x);
 
 
 class Gen:
-    def __init__(self, rng, use_ext=True, size=1.0):
+    def __init__(self, rng, use_ext=True, size=1.0, avoid=()):
         self.r = rng
+        self.avoid = set(avoid)     # shapes not to generate (known findings of other components)
         self.use_ext = use_ext
         self.size = size
         self.structs = []      # list of (name, fields)
@@ -206,6 +207,9 @@ class Gen:
                 fields.append(('scalar', fn, r.choice(NAMES)))
             elif k < 0.68:
                 base = r.choice(['int', 'uint', 'uint', 'bool'])
+                if 'mixed-unit-bitfields' in self.avoid and fields and fields[-1][0] in ('bf', 'bf0') \
+                        and (fields[-1][2] == 'bool') != (base == 'bool'):
+                    base = fields[-1][2]     # keep adjacent bit-fields in storage units of one size
                 w = 1 if base == 'bool' else r.choice([1, 2, 3, 5, 7, 8, 9, 13, 16, 17, 24, 31, 32])
                 fields.append(('bf', fn, base, w))
                 if r.random() < 0.12:
@@ -364,6 +368,9 @@ class Gen:
             body = self.stmts(sub, depth - 1, r.randint(1, 2))
             if r.random() < 0.5:
                 self.features.add('while')
+                if 'nested-postdec-while' in self.avoid:
+                    # no `while (w-- > 0)` at all: after inlining it could end up inside a caller's loop
+                    return ['{ unsigned %s = %d;' % (v, n), '  while (%s > 0) {' % v] + ind(ind(body)) + ['    %s--;' % v, '  }', '}']
                 return ['{ unsigned %s = %d;' % (v, n), '  while (%s-- > 0) {' % v] + ind(ind(body)) + ['  }', '}']
             self.features.add('do-while')
             return ['{ unsigned %s = 0;' % v, '  do {'] + ind(ind(body)) + ['  } while (++%s < %d);' % (v, n), '}']
@@ -609,6 +616,6 @@ def ind(lines):
     return ['  ' + l for l in lines]
 
 
-def generate(rng, use_ext=True, size=1.0):
-    g = Gen(rng, use_ext, size)
+def generate(rng, use_ext=True, size=1.0, avoid=()):
+    g = Gen(rng, use_ext, size, avoid)
     return g.program(), sorted(g.features)
